@@ -34,8 +34,8 @@ UBSAN = ['-fsanitize=shift,signed-integer-overflow,integer-divide-by-zero,bounds
          '-fsanitize-trap=all']
 
 
-def cxx_flags(defs=None, opt='-O1', ubsan=True):
-    f = (UBSAN if ubsan else []) + ['-std=c++20', opt, '-Dconsteval=constexpr', '-Wno-keyword-macro', '-w',
+def cxx_flags(defs=None, opt='-O1', ubsan=True, nofmt=False):
+    f = (UBSAN if ubsan else []) + (['-I', os.path.join(VERIF, 'ref', 'nofmt')] if nofmt else []) + ['-std=c++20', opt, '-Dconsteval=constexpr', '-Wno-keyword-macro', '-w',
          '-fno-vectorize', '-fno-slp-vectorize', '-fno-unroll-loops', '-fno-strict-aliasing',
          '-isystem', os.path.join(TOOL, 'compat'), '-I', TOOL, '-I', os.path.join(VERIF, 'ref'),
          '-I', SRC, '-I', build_config_dir(),
@@ -77,8 +77,8 @@ class H:
     def __init__(self, name, src, entry, link=(), variants=None, defines=None, unwind=None, unwindset=None,
                  cbmc=(), tier='quick', timeout=300, route='B', functions=(), stubs=(), assumptions=(),
                  bounds='', checks=(), opt='-O1', backends=('default',), diff_runs=40, override=(),
-                 objbits=None, keep=(), tvariants=None, memunwind=72, noop=(), csrc=(), slice_formula=True, include_dirs=(), global_ctors=False, ubsan=True):
-        self.global_ctors = global_ctors; self.ubsan = ubsan; self.memunwind = memunwind; self.noop = list(noop)
+                 objbits=None, keep=(), tvariants=None, memunwind=72, noop=(), nofmt=False, allow_nobody=(), csrc=(), slice_formula=True, include_dirs=(), global_ctors=False, ubsan=True):
+        self.global_ctors = global_ctors; self.ubsan = ubsan; self.memunwind = memunwind; self.noop = list(noop); self.nofmt = nofmt; self.allow_nobody = list(allow_nobody)
         self.name = name; self.src = src; self.entry = entry; self.link = list(link)
         self.variants = variants or [{}]; self.tvariants = tvariants  # thorough-tier variants (default: same)
         self.defines = defines or {}
@@ -99,9 +99,9 @@ def sha(s):
     return hashlib.sha256(s if isinstance(s, bytes) else s.encode()).hexdigest()
 
 
-def compile_ir(path, defs, work, opt='-O1', tag=None, overlay_rules=True, ubsan=True):
+def compile_ir(path, defs, work, opt='-O1', tag=None, overlay_rules=True, ubsan=True, nofmt=False):
     """C++ file -> LLVM IR text file; content-addressed cache on the preprocessed source."""
-    flags = cxx_flags(defs, opt, ubsan)
+    flags = cxx_flags(defs, opt, ubsan, nofmt)
     src = path
     if overlay_rules:
         src = overlay.apply(path, work)  # returns scratch copy (or the original) ; raises on rule mismatch
@@ -286,11 +286,11 @@ class Job:
         os.makedirs(w, exist_ok=True)
         defs = dict(h.defines); defs.update(self.variant)
         src = resolve_src(h.src, self.hdir)
-        lls = [compile_ir(src, defs, w, h.opt, overlay_rules=False, ubsan=h.ubsan)]
+        lls = [compile_ir(src, defs, w, h.opt, overlay_rules=False, ubsan=h.ubsan, nofmt=h.nofmt)]
         for l in h.link:
-            lls.append(compile_ir(resolve_src(l, self.hdir), {k: v for k, v in defs.items() if k.startswith('VERIF_')}, w, h.opt, ubsan=h.ubsan))
+            lls.append(compile_ir(resolve_src(l, self.hdir), {k: v for k, v in defs.items() if k.startswith('VERIF_')}, w, h.opt, ubsan=h.ubsan, nofmt=h.nofmt))
         lls.append(compile_ir(os.path.join(TOOL, 'models', 'stl_models.cpp'), {}, w, h.opt, overlay_rules=False, ubsan=False))
-        ovs = [compile_ir(resolve_src(o, self.hdir), defs, w, h.opt, overlay_rules=False, ubsan=h.ubsan) for o in h.override]
+        ovs = [compile_ir(resolve_src(o, self.hdir), defs, w, h.opt, overlay_rules=False, ubsan=h.ubsan, nofmt=h.nofmt) for o in h.override]
         linked = os.path.join(w, 'linked.bc')
         red = os.path.join(w, 'red.bc'); redll = os.path.join(w, 'red.ll')
         rkey = sha('|'.join(lls) + '#' + '|'.join(ovs) + '#' + h.entry + ','.join(h.keep) + str(h.global_ctors) + '|'.join(h.noop) + 'r2')
@@ -441,6 +441,10 @@ class Job:
             if win['verdict'] is None or '(error' in out:
                 why = 'timeout' if win['rc'] == 'timeout' else ('out of memory' if 'bad_alloc' in out or 'out of memory' in out.lower() else 'tool error')
                 raise Inconclusive('cbmc gave no verdict (%s) after %.0fs: %s' % (why, win['wall'], out[-1500:]))
+            nobody = sorted(set(re.findall(r'no body for (?:function|callee) (\S+)', out)) - set(h.allow_nobody))
+            nobody = [f for f in nobody if not f.startswith(('nondet_', '__VERIFIER_nondet', '__CPROVER'))]
+            if nobody:
+                raise Inconclusive('functions without a body would be havocked by CBMC (unsound): %s -- link the real TU, stub them in the harness, or model them in tool/rt.c / tool/models' % nobody[:12])
             props = win['props']
             wit = [p for p in props if p[1].startswith('WITNESS:')]
             real = [p for p in props if not p[1].startswith('WITNESS:')]
